@@ -2,6 +2,7 @@ package c19
 
 import (
 	"fmt"
+	"math"
 	"testing"
 	"time"
 
@@ -31,7 +32,7 @@ func failAt(d time.Duration) outcome { return outcome{Kind: kFail, Lat: int64(d)
 
 var recFixed = ev.New("C19", "probe-regressions",
 	"fixed histories: three-way tie (all policies), quick failure vs slow success, hang vs success, eviction of round 1 at round 33 (latency, min-max) and at round 65 (availability), "+
-		"a success overwritten by a failure one lap later, groups of 13/16/20/24 clients whose best figure is shared by 2..12 non-adjacent members with everybody else (incl. position 0) worse, 20 identical clients; same runner and reference model as probe-policies. Non-trivial: all; distinct = case name")
+		"a success overwritten by a failure one lap later, round 6: edge configuration values decoded from JSON (all negative / most negative / zero / omitted / no probe object / smallest positive / huge; first member failing, second succeeding), a member flipping at round 32,33,63,64,65,128,129, mixed groups (TCP probing + UDP round-robin/random, TCP round-robin + UDP probing, two probing sides with their own settings), groups of 13/16/20/24 clients whose best figure is shared by 2..12 non-adjacent members with everybody else (incl. position 0) worse, 20 identical clients; same runner and reference model as probe-policies. Non-trivial: all; distinct = case name")
 
 func TestProbeRegressions(t *testing.T) {
 	const T = time.Second
@@ -139,9 +140,123 @@ func TestProbeRegressions(t *testing.T) {
 		}
 		cases = append(cases, tc{"large-all-equal/" + pol, fixedPlan(pol, T, h), map[int]int{1: 0, 2: 0}})
 	}
+	// ---- round 6 ------------------------------------------------------------------------------
+	// gap 1: configuration values at and beyond the edge of their range, decoded from JSON; first member
+	// always fails, second always succeeds: away from the first member after the very first round
+	for _, pol := range []string{polAvailability, polLatency, polMinMax} {
+		one := int64(1)
+		if pol == polLatency {
+			one = int64(time.Microsecond)
+		}
+		for _, e := range []struct {
+			name              string
+			timeout, interval int64
+			conc, omit        int
+			c0, c1            outcome
+		}{
+			{"all-negative", -int64(time.Second), -int64(time.Second), -1, 0, failAt(0), okAt(0)},
+			{"all-most-negative", -(1 << 62), -(1 << 62), math.MinInt, 0, failAt(time.Millisecond), okAt(time.Second)},
+			{"all-zero", 0, 0, 0, 0, outcome{Kind: kHang, How: 1}, okAt(time.Second)},
+			{"all-omitted", 0, 0, 0, 7, outcome{Kind: kHang, How: 0}, okAt(time.Second)},
+			{"no-probe-object", 0, 0, 0, 15, failAt(0), okAt(0)},
+			{"all-smallest-positive", one, 1, 1, 0, failAt(0), okAt(0)},
+			{"all-huge", int64(hugeTimeout), int64(hugeInterval), math.MaxInt, 0, outcome{Kind: kHang, How: 2}, okAt(time.Hour)},
+			{"huge-timeout-default-interval", int64(hugeTimeout), 0, 0, 2, failAt(time.Second), okAt(29 * time.Second)},
+		} {
+			p := &probePlan{Proto: "tcp", Policy: pol, Order: []int{0, 1}, TimeoutNS: e.timeout, IntervalNS: e.interval, Concurrency: e.conc,
+				CfgJSON: true, Omit: e.omit, HasBound: true, Class: "edge"}
+			var maxDur int64
+			for _, o := range []outcome{e.c0, e.c1} {
+				d := o.Lat
+				if o.Kind == kHang {
+					d = int64(p.timeout())
+				}
+				maxDur = max(maxDur, d)
+			}
+			p.BoundNS = maxDur * int64(p.n()/p.conc())
+			for r := 0; r < 3; r++ {
+				p.Hist = append(p.Hist, []outcome{e.c0, e.c1})
+				offs := []int64{0}
+				if p.BoundNS > 0 {
+					offs = append(offs, 1, p.BoundNS-1, p.BoundNS)
+				}
+				p.Samples = append(p.Samples, append(offs, int64(p.interval())-1))
+				p.ViaDial = append(p.ViaDial, 0b10101)
+			}
+			cases = append(cases, tc{"edge-config/" + e.name + "/" + pol, p, map[int]int{1: 1, 2: 1, 3: 1}})
+		}
+	}
+	// gap 3: the first member is the better one until round F-1 and fails from round F on; the second is
+	// steady. F next to the ring sizes; the switch must come exactly where the retained window says.
+	for _, pol := range []string{polAvailability, polLatency, polMinMax} {
+		for _, F := range []int{32, 33, 63, 64, 65, 128, 129} {
+			var h [][]outcome
+			for r := 1; r <= F+10; r++ {
+				c0 := okAt(0)
+				if r >= F {
+					c0 = failAt(0)
+				}
+				h = append(h, []outcome{c0, okAt(T / 4)})
+			}
+			want := map[int]int{F - 1: 0, F: 1, F + 10: 1}
+			if pol == polLatency {
+				// k failures cost k*T; the steady member's 32 retained rounds cost 8T: equal at k = 8 (first wins), worse at 9
+				want = map[int]int{F - 1: 0, F + 7: 0, F + 8: 1, F + 10: 1}
+			}
+			p := fixedPlan(pol, T, h)
+			p.Class, p.FlipAt, p.FlipPos, p.FlipPre = "flip", F, 0, okAt(0)
+			cases = append(cases, tc{fmt.Sprintf("flip-at-%d/%s", F, pol), p, want})
+		}
+	}
+	// gap 2: both sides in one group, different policies, different member orders
+	{
+		var h [][]outcome
+		for r := 0; r < 4; r++ {
+			h = append(h, []outcome{failAt(0), okAt(time.Millisecond), okAt(2 * time.Millisecond)})
+		}
+		for _, pol := range []string{polAvailability, polLatency, polMinMax} {
+			// TCP <probing> + UDP round-robin / random over its own order
+			for _, other := range []string{polRoundRobin, polRandom} {
+				p := fixedPlan(pol, T, h)
+				p.Other = &otherSide{Policy: other, Order: []int{2, 0, 3, 1}}
+				cases = append(cases, tc{"mixed/tcp=" + pol + "+udp=" + other, p, map[int]int{1: 1, 4: 1}})
+			}
+			// TCP round-robin + UDP <probing> (the UDP fakes can only fail: the UDP side stays on its first member
+			// and must be probed by its own schedule, the TCP side cycles)
+			var hu [][]outcome
+			for r := 0; r < 4; r++ {
+				hu = append(hu, []outcome{failAt(0), {Kind: kHang}, failAt(T / 2)})
+			}
+			p := fixedPlan(pol, T, hu)
+			p.Proto = "udp"
+			p.Other = &otherSide{Policy: polRoundRobin, Order: []int{1, 2, 0}}
+			cases = append(cases, tc{"mixed/tcp=round-robin+udp=" + pol, p, map[int]int{1: 0, 4: 0}})
+		}
+		// two probing sides: TCP availability (interval 2T) + UDP min-max-latency (defaults 5s/30s/32) and
+		// UDP latency (first side) + TCP availability with its own history, timeout T/2, interval 3T
+		p := fixedPlan(polAvailability, T, h)
+		p.Other = &otherSide{Policy: polMinMax, Order: []int{1, 0}, Hist: [][]outcome{{failAt(0), {Kind: kHang}}}}
+		cases = append(cases, tc{"mixed/tcp=availability+udp=min-max-latency(defaults)", p, map[int]int{1: 1, 4: 1}})
+		var hu [][]outcome
+		for r := 0; r < 6; r++ {
+			hu = append(hu, []outcome{failAt(0), failAt(0)})
+		}
+		p = fixedPlan(polLatency, T, hu)
+		p.Proto = "udp"
+		p.Other = &otherSide{Policy: polAvailability, Order: []int{2, 1, 0}, TimeoutNS: int64(T / 2), IntervalNS: int64(3 * T), Concurrency: 1}
+		for r := 0; r < 6; r++ {
+			// the other (TCP) side's own history: its third member is the only one that answers, from its round 2 on
+			row := []outcome{failAt(0), {Kind: kHang, How: 1}, failAt(time.Millisecond)}
+			if r >= 1 {
+				row[2] = okAt(time.Millisecond)
+			}
+			p.Other.Hist = append(p.Other.Hist, row)
+		}
+		cases = append(cases, tc{"mixed/udp=latency+tcp=availability(own-history)", p, map[int]int{1: 0, 6: 0}})
+	}
 	for _, c := range cases {
 		for r, want := range c.want {
-			if got, _ := refChoice(c.plan.Policy, c.plan.Hist, r, retention(c.plan.Policy), c.plan.TimeoutNS); got != want {
+			if got, _ := refChoice(c.plan.Policy, c.plan.Hist, r, retention(c.plan.Policy), int64(c.plan.timeout())); got != want {
 				t.Fatalf("HARNESS: %s: reference model says %d after round %d, hand computation says %d", c.name, got, r, want)
 			}
 		}
@@ -155,5 +270,6 @@ func TestProbeRegressions(t *testing.T) {
 		}
 		recFixed.Case(c.name, true, "case/"+c.name)
 		recFixed.Label("samples", st.samples)
+		recFixed.Label("other-side-selections", st.otherSelections)
 	}
 }
